@@ -27,4 +27,23 @@ def finalTried (k : Caller) (o : Outcome) : List (Ep × Outcome) :=
 def obsOf (k : Caller) (o : Outcome) (r : Res) : CallObs :=
   { tried := (finalTried k o).map (fun p => (p.1, toAns p.2)), result := r }
 
+/-- ghost bookkeeping along a run: the endpoint of the most recent success that had failed over
+    (position > 0 in its snapshot, i.e. the call tried more than one endpoint) -/
+def lfStep (s : State) (l : Label) (lf : Option Ep) : Option Ep :=
+  match l with
+  | .respond c o =>
+    if o = .ok ∨ o = .badPayload then
+      match lookup s.callers c with
+      | some k => if k.idx > 0 then (match k.snapshot[k.idx]? with | some e => some e | none => lf) else lf
+      | none => lf
+    else lf
+  | _ => lf
+
+def runLF (s : State) (lf : Option Ep) : List Label → Option (State × Option Ep)
+  | [] => some (s, lf)
+  | l :: ls =>
+    match step s l with
+    | some (s1, _) => runLF s1 (lfStep s l lf) ls
+    | none => none
+
 end Lumina.Model.Failover
